@@ -949,14 +949,14 @@ def check_c16(ctx, led):
         semantic_ok = False
         sem_error = e
         n = 0
-    if semantic_ok:
-        class _Structural(InfoLedger):
-            # the call-graph rule is not idiom-dependent: it keeps deciding
-            def violation(self_, rule, *a, **k):
-                if rule == "C16.ask.recursion":
-                    return led.violation(rule, *a, **k)
-                return InfoLedger.violation(self_, rule, *a, **k)
+    class _Structural(InfoLedger):
+        # the call-graph rule is not idiom-dependent: it keeps deciding
+        def violation(self_, rule, *a, **k):
+            if rule == "C16.ask.recursion":
+                return led.violation(rule, *a, **k)
+            return InfoLedger.violation(self_, rule, *a, **k)
 
+    if semantic_ok:
         try:
             check_c16_structural(ctx, _Structural(led))
         except AnalysisError as e:
@@ -965,7 +965,7 @@ def check_c16(ctx, led):
     # the idiom rules know one way of writing the builder: neither their silence nor their
     # complaints decide a builder the semantic analysis could not follow
     try:
-        check_c16_structural(ctx, InfoLedger(led))
+        check_c16_structural(ctx, _Structural(led))
     except AnalysisError:
         pass
     raise sem_error
